@@ -373,6 +373,49 @@ Theorem C20_var2_is_mixed_dual_part : forall l : list (e2 (T:=R)), l <> [] -> po
 Proof. exact var2_is_mixed_dual_part. Qed.
 Print Assumptions C20_var2_is_mixed_dual_part.
 
+(* ================= corners excluded by the hypotheses above: what the code does there ================= *)
+(* non-unit / zero quaternions (accepted by the constructor): not applied as q v q*; the zero quaternion is the identity map.  Angles 0 and
+   2 pi give +-identity, angle pi the reflection through the axis.  (Zero-length vectors, excluded by 0 < |v|^2 everywhere: binary64 gives NaN.) *)
+Theorem C20_corner_quaternions_and_angles : forall (q : quat R) (v axis : vec3 R), 0 < v_lsq RNum axis ->
+  rotate RNum v q = v_add RNum (sand q v) (v_mul RNum v (1 - q_lsq RNum q)) /\
+  rotate RNum v (mkQ 0 0 0 0) = v /\
+  (let a := v_normalize RNum axis in
+   rotate RNum v (angle_axis RNum 1 0 axis) = v /\ rotate RNum v (angle_axis RNum (-1) 0 axis) = v /\
+   rotate RNum v (angle_axis RNum 0 1 axis) = v_add RNum (v_mul RNum a (2 * v_dot RNum a v)) (v_mul RNum v (-1))).
+Proof.
+  intros q v axis Ha. split; [apply rotate_nonunit|]. split; [apply rotate_zero_quaternion|]. exact (angle_axis_special axis v Ha).
+Qed.
+Print Assumptions C20_corner_quaternions_and_angles.
+
+(* init_to_new_axes with newx parallel to newz (or zero): half-angle values (1,0) (atan2(0,0) = 0); the first stage alone *)
+Theorem C20_corner_to_new_axes_parallel : forall thr (newz newx : vec3 R), 0 <= thr -> 0 < v_lsq RNum newz ->
+  let f := v_normalize RNum newz in
+  (0 <= v_dot RNum f ez \/ thr < v_lsq RNum (v_add RNum f ez) \/ f = v_mul RNum ez (-1)) ->
+  let q := to_new_axes RNum isnormR thr 1 0 newz newx in
+  q_lsq RNum q = 1 /\ rotate RNum f q = ez /\ q = snd (to_new_axes_x' RNum isnormR thr newz newx).
+Proof. exact to_new_axes_parallel. Qed.
+Print Assumptions C20_corner_to_new_axes_parallel.
+
+(* slerp outside the default branch (q2 = +-q1, nearly equal, nearly opposite) *)
+Theorem C20_corner_slerp : forall eps sA sB (q1 q2 : quat R),
+  let c := slerp_cos RNum q1 q2 in let s := sqrt (1 - c * c) in
+  (1 <= Rabs c -> slerp RNum eps sA sB q1 q2 = q1) /\
+  (Rabs c < 1 -> Rabs s < eps -> c < 0 -> slerp RNum eps sA sB q1 q2 = q1) /\
+  (Rabs c < 1 -> Rabs s < eps -> 0 <= c ->
+     slerp RNum eps sA sB q1 q2 = mkQ (qix q1 * (1 / 2) + qix q2 * (1 / 2)) (qiy q1 * (1 / 2) + qiy q2 * (1 / 2))
+                                      (qiz q1 * (1 / 2) + qiz q2 * (1 / 2)) (qr q1 * (1 / 2) + qr q2 * (1 / 2))).
+Proof. exact slerp_corners. Qed.
+Print Assumptions C20_corner_slerp.
+
+(* frames: N_real = 0 (nothing happens), N_real = 1 (the particle ends at rest at the origin), total mass zero (no division, real particles
+   stay; the variational corrections divide by the total mass and are NaN/inf in binary64 there: their theorems assume M <> 0) *)
+Theorem C20_corner_frames :
+  (move_to_com RNum [] [] = [] /\ move_to_hel RNum [] = [] /\ com_m RNum [] [] = 0 /\ com_q RNum [] [] = 0) /\
+  (forall m q, 0 < m -> move_to_com RNum [m] [q] = [0] /\ move_to_hel RNum [q] = [0]) /\
+  (forall ms qs, Forall (fun m => m = 0) ms -> List.length ms = List.length qs -> move_to_com RNum ms qs = qs).
+Proof. exact (conj empty_simulation_frames (conj single_particle_frames all_massless_stay)). Qed.
+Print Assumptions C20_corner_frames.
+
 (* ================= non-vacuity ================= *)
 Example C20_hypotheses_inhabited :
   (* a non-trivial rotation and non-zero, non-parallel vectors *)
